@@ -264,3 +264,16 @@ Proof.
   destruct (walk_horish_inside_clip istart istop fstart slope s0 s1 o ct cl cb cr W Ht Hb Hl Hlo Hhi y x a Hin) as (A & B & C).
   auto.
 Qed.
+
+(* ---- the known finding C06-aa-hairline-top-left-fold, as a statement about the model -------------------------------------- *)
+(* without the hypothesis "the accumulator never goes negative" the rows statement is false: a segment that starts above the
+   pixmap (fstart + 1/2 < 0) is clamped at its first column and every later column is drawn below its ideal rows *)
+Theorem walk_rows_refuted_when_clamped :
+  exists istart istop fstart slope s0 s1 out x y a,
+    walk Horish None istart istop fstart slope s0 s1 = Some out /\ In (x, y, a) out /\
+    ~ rows_of (fun x => fstart + half16 + (x - istart) * slope) x y.
+Proof.
+  exists 0, 6, (-81920), 32768, 64, 0.
+  eexists. exists 5, 2, 128. split; [vm_compute; reflexivity|]. split; [cbn; tauto|].
+  unfold rows_of, dec1, half16. cbv zeta. vm_compute. intros [H | H]; discriminate.
+Qed.
